@@ -308,7 +308,172 @@ func genC19(repo string) (string, error) {
 		}
 	}
 	fmt.Fprintf(&b, "def formatToMediaType : List (String × String) :=\n  [%s]\n", strings.Join(f2m, ",\n   "))
+	if err := genC19Dispatch(repo, &b); err != nil {
+		return "", err
+	}
 	return b.String(), nil
+}
+
+// ---- dispatch: which lake operation each Interface method reaches, directly and through its
+// service handler --------------------------------------------------------------------------
+
+var c19Methods = []struct{ method, handler string }{
+	{"CreatePool", "handlePoolPost"},
+	{"RemovePool", "handlePoolDelete"},
+	{"RenamePool", "handlePoolPut"},
+	{"CreateBranch", "handleBranchPost"},
+	{"MergeBranch", "handleBranchMerge"},
+	{"Revert", "handleRevertPost"},
+	{"Load", "handleBranchLoad"},
+	{"Delete", "handleDelete"},
+	{"DeleteWhere", "handleDelete"},
+	{"Compact", "handleCompact"},
+	{"AddVectors", "handleVectorPost"},
+	{"DeleteVectors", "handleVectorDelete"},
+	{"Vacuum", "handleVacuum"},
+}
+
+// coreCalls lists, in source order, the calls in fd whose method name is one of the lake
+// operations, rendered as "<receiver kind>.<Method>/<number of arguments>".
+func coreCalls(f *file, fd *ast.FuncDecl) []string {
+	ops := map[string]bool{"CreatePool": true, "RemovePool": true, "RenamePool": true, "CreateBranch": true,
+		"RemoveBranch": true, "MergeBranch": true, "Revert": true, "Load": true, "Delete": true, "DeleteWhere": true,
+		"Compact": true, "AddVectors": true, "DeleteVectors": true, "Vacuum": true}
+	var out []string
+	ast.Inspect(fd.Body, func(n ast.Node) bool {
+		call, ok := n.(*ast.CallExpr)
+		if !ok {
+			return true
+		}
+		sel, ok := call.Fun.(*ast.SelectorExpr)
+		if !ok || !ops[sel.Sel.Name] {
+			return true
+		}
+		recv, ok := selName(sel.X)
+		if !ok {
+			return true
+		}
+		kind := recv
+		switch recv {
+		case "l.root", "c.root":
+			kind = "root"
+		case "lk":
+			kind = "local" // a lakeapi local handle: the very implementation of direct access
+		case "p", "pool":
+			kind = "pool"
+		}
+		out = append(out, fmt.Sprintf("%s.%s/%d", kind, sel.Sel.Name, len(call.Args)))
+		return true
+	})
+	return out
+}
+
+func comparesToEmptyString(fd *ast.FuncDecl) bool {
+	found := false
+	ast.Inspect(fd.Body, func(n ast.Node) bool {
+		be, ok := n.(*ast.BinaryExpr)
+		if !ok || be.Op != token.EQL {
+			return true
+		}
+		if s, ok := strLit(be.Y); ok && s == "" {
+			if x, ok := selName(be.X); ok && (x == "name" || x == "req.Name") {
+				found = true
+			}
+		}
+		return true
+	})
+	return found
+}
+
+func genC19Dispatch(repo string, b *strings.Builder) error {
+	lf, err := parseFile(repo, "lake/api/local.go")
+	if err != nil {
+		return err
+	}
+	hf, err := parseFile(repo, "service/handlers.go")
+	if err != nil {
+		return err
+	}
+	var rows []string
+	var viaLocal []string
+	for _, m := range c19Methods {
+		lfd, err := lf.funcDecl("local", m.method)
+		if err != nil {
+			return err
+		}
+		hfd, err := hf.funcDecl("", m.handler)
+		if err != nil {
+			return err
+		}
+		pick := func(calls []string) string {
+			for _, c := range calls {
+				if strings.Contains(c, "."+m.method+"/") {
+					return c
+				}
+			}
+			return ""
+		}
+		lc, hc := pick(coreCalls(lf, lfd)), pick(coreCalls(hf, hfd))
+		if lc == "" || hc == "" {
+			return fmt.Errorf("dispatch: no call of %s found in local.%s (%q) or %s (%q)", m.method, m.method, lc, m.handler, hc)
+		}
+		rows = append(rows, fmt.Sprintf("(%s, %s, %s)", leanStr(m.method), leanStr(lc), leanStr(hc)))
+		if strings.HasPrefix(hc, "local."+m.method+"/") {
+			viaLocal = append(viaLocal, m.method)
+		}
+	}
+	fmt.Fprintf(b, "def dispatch : List (String × String × String) :=\n  [%s]\n", strings.Join(rows, ",\n   "))
+	fmt.Fprintf(b, "def viaLocalHandle : List String := %s\n", leanStrList(viaLocal))
+	// the pool-name guard
+	lcp, err := lf.funcDecl("local", "CreatePool")
+	if err != nil {
+		return err
+	}
+	hcp, err := hf.funcDecl("", "handlePoolPost")
+	if err != nil {
+		return err
+	}
+	fmt.Fprintf(b, "def localChecksEmptyPoolName : Bool := %v\n", comparesToEmptyString(lcp))
+	fmt.Fprintf(b, "def handlerChecksEmptyPoolName : Bool := %v\n", comparesToEmptyString(hcp))
+	// the reader handed to Branch.Load by the handler, and what warningsReader.Read does with an error
+	hl, err := hf.funcDecl("", "handleBranchLoad")
+	if err != nil {
+		return err
+	}
+	wrapped := false
+	ast.Inspect(hl.Body, func(n ast.Node) bool {
+		if cl, ok := n.(*ast.CompositeLit); ok {
+			if id, ok := cl.Type.(*ast.Ident); ok && id.Name == "warningsReader" {
+				wrapped = true
+			}
+		}
+		return true
+	})
+	swallows := false
+	if wr, err := hf.funcDecl("warningsReader", "Read"); err == nil {
+		ast.Inspect(wr.Body, func(n ast.Node) bool {
+			ifs, ok := n.(*ast.IfStmt)
+			if !ok {
+				return true
+			}
+			if renderExpr(hf, ifs.Cond) != "err != nil" {
+				return true
+			}
+			for _, st := range ifs.Body.List {
+				if ret, ok := st.(*ast.ReturnStmt); ok && len(ret.Results) == 2 {
+					if id, ok := identName(ret.Results[1]); ok && id == "nil" {
+						swallows = true
+					}
+				}
+			}
+			return true
+		})
+	} else if wrapped {
+		return fmt.Errorf("dispatch: handleBranchLoad uses warningsReader but its Read method was not found")
+	}
+	fmt.Fprintf(b, "def loadReaderWrapped : Bool := %v\n", wrapped)
+	fmt.Fprintf(b, "def loadReaderSwallowsErrors : Bool := %v\n", wrapped && swallows)
+	return nil
 }
 
 // isControlSig: func (…) WriteControl(v interface{}) error  (or `any`)
